@@ -141,6 +141,14 @@ def run(ctx):
                         oksome = e[0] == "ref" and {fields_only(p[1]) for p in e[1]} == {("inner",)}
                     if s["rv"]["variant_name"] == "None" and on and on[0][2] is False:
                         oknone = True
+        # equivalent spelling: self.on.then_some(&self.inner)
+        for bi, t in tg.calls():
+            if (t["callee"].get("def") or "").endswith("bool>::then_some") and t["dest"]["local"] == 0 and not t["dest"]["proj"] and len(t["args"]) == 2:
+                c = strip_bb(G.R.op(t["args"][0]))
+                v = strip_bb(G.R.op(t["args"][1]))
+                if c[0] == "place" and {fields_only(p[1]) for p in c[1]} == {("on",)} and v[0] == "ref" and {fields_only(p[1]) for p in v[1]} == {("inner",)} \
+                        and len(tg.defs().get(0, [])) == 1:
+                    oksome = oknone = True
         ctx.ob("getter-gated", "Toggle::get", oksome and oknone, "Toggle::get returns Some(&inner) iff on" if oksome and oknone else "Toggle::get does not return Some(&inner) exactly when on", where(tg), cfg)
         # writers of rs among HandshakeState's &mut API
         cnt = 0
